@@ -37,7 +37,8 @@ type KnownFinding struct {
 
 type job struct {
 	h      *Harness
-	prefix []bool
+	prefix []Decision
+	root   []AuxRec
 	front  int
 }
 
@@ -77,6 +78,7 @@ func cfgFor(h *Harness, tier, scratch string) Config {
 	if h.SoftMS > 0 {
 		cfg.SoftMS = h.SoftMS
 	}
+	cfg.ConcretizeN = h.ConcretizeN
 	cfg.BudgetIsViolation = h.BudgetViolation
 	cfg.NoMerge = h.NoMerge
 	return cfg
@@ -183,7 +185,7 @@ func RunProperty(o RunOpts) int {
 							delete(cache, j.h.Name)
 						}
 					}()
-					res = ex.Explore(j.h.Fn, j.prefix, j.front)
+					res = ex.Explore(j.h.Fn, j.prefix, j.root, j.front)
 				}()
 				if res == nil {
 					return
@@ -195,7 +197,7 @@ func RunProperty(o RunOpts) int {
 					fmt.Printf("  %s prefix=%d paths=%d ends=%v wall=%.1fs\n", j.h.Name, len(j.prefix), res.Paths, res.PathEnds, res.Wall.Seconds())
 				}
 				for _, pre := range res.Frontier {
-					addJob(job{h: j.h, prefix: pre})
+					addJob(job{h: j.h, prefix: pre, root: res.FrontierRoot})
 				}
 			}()
 		}
@@ -243,8 +245,8 @@ func RunProperty(o RunOpts) int {
 			knownHit[id] = what
 		}
 		allViol = append(allViol, hr.Violations...)
-		fmt.Printf("  %-40s paths=%d ok=%d decisions=%d asserts=%d queries=%d (sat %d unsat %d unknown %d esc %d) solver=%.1fs wall=%.1fs viol=%d\n",
-			n, hr.Paths, completed, hr.Decisions, hr.Asserts, hr.Solver.Queries, hr.Solver.Sat, hr.Solver.Unsat, hr.Solver.Unknown, hr.Solver.Escalated,
+		fmt.Printf("  %-40s paths=%d ok=%d decisions=%d (one-sided %d, fact-hits %d) asserts=%d queries=%d (sat %d unsat %d unknown %d esc %d) solver=%.1fs wall=%.1fs viol=%d\n",
+			n, hr.Paths, completed, hr.Decisions, hr.OneSided, hr.FactHits, hr.Asserts, hr.Solver.Queries, hr.Solver.Sat, hr.Solver.Unsat, hr.Solver.Unknown, hr.Solver.Escalated,
 			hr.Solver.Time.Seconds(), hr.Wall.Seconds(), len(hr.Violations))
 	}
 	// known findings
@@ -271,7 +273,10 @@ func RunProperty(o RunOpts) int {
 		b, _ := json.MarshalIndent(v, "", " ")
 		os.WriteFile(path, b, 0o644)
 		status := "not-replayed"
-		if !o.NoReplay {
+		if v.Kind == "monitor" {
+			// lock-discipline monitor: a sequential native run has no oracle for an unlocked access
+			status = "monitor (no native oracle; symbolic lock monitor)"
+		} else if !o.NoReplay {
 			ok, out := NativeReplay(o.VerifDir, ld, aggs[v.Harness].h, path, &v)
 			if ok {
 				status = "reproduced"
@@ -365,6 +370,8 @@ func mergeResults(ag *harnessAgg) *Result {
 			}
 		}
 		m.BudgetHits += r.BudgetHits
+		m.FactHits += r.FactHits
+		m.OneSided += r.OneSided
 		m.TwinSat = m.TwinSat || r.TwinSat
 		m.Witness = append(m.Witness, r.Witness...)
 	}
